@@ -176,6 +176,18 @@ def run(c, replay):
     jobs = [(ci, st, (ch,), False) for ci in (0, 2) for st in STARTS[:c.pick(2, 4)] for ch in chains]
     sweep.run_jobs(c, "edit-chains", run_history, jobs, deadline_s=c.pick(60, 400),
                    rule="every two-action chain of editing actions posted as ONE event from %d start states" % c.pick(2, 4))
+    # ---- layer 2b: the kill buffer is shared state between kill actions, edits and yank: every  K E{0..2} Y{1..2}  chain
+    kills = ["kill-line", "unix-line-discard", "unix-word-rubout", "backward-kill-word", "kill-word"]
+    edits = ["backward-char", "forward-char", "beginning-of-line", "end-of-line", "put(x)", "backward-delete-char", "delete-char"]
+    fam = []
+    for k in kills:
+        for n in (0, 1, 2):
+            for es in itertools.product(edits, repeat=n):
+                for y in (1, 2):
+                    fam.append("+".join((k,) + es + ("yank",) * y))
+    jobs = [(ci, st, (ch,), False) for ci in (0,) for st in STARTS[1:2] + [("put(ab a-b)", "backward-word")] for ch in fam]
+    sweep.run_jobs(c, "kill-edit-yank", run_history, jobs, deadline_s=c.pick(90, 400),
+                   rule="every chain  kill-action, 0-2 edits/moves, 1-2 yanks  (5 x (1+7+49) x 2 = 570 chains) posted as ONE event from 2 start states with the cursor inside the query")
     # ---- layer 3: raw keys (default bindings) and non-initial start states x pairs
     jobs = [(ci, st, (k,), False) for ci in range(ncfg) for st in STARTS for k in keyel]
     jobs += [(ci, st, (a, b), True) for ci in range(c.pick(2, len(CFGS))) for st in STARTS[1:] for a in c.pick(NAV + SEL, alpha) for b in c.pick(SEL + ["put(a)", "backward-delete-char"], alpha)]
